@@ -198,6 +198,43 @@ def run_burst(ctx):
     ctx.coverage.setdefault("distribution", {})["burst"] = res
 
 
+def acceptor_script(L):
+    """fill the limit, one more waits; a slot is freed by a Hello, by a departure, by a Hello again - each time the waiting client must
+    be served and the next one must wait"""
+    return ([("arrive",)] * L + [("arrive",), ("complete", 1), ("arrive",), ("gone", L + 1), ("arrive",), ("complete", L + 2),
+                                 ("arrive",), ("gone", L + 3), ("gone", L + 4)])
+
+
+def _acc13_job(args):
+    from .c10 import acceptor_case
+    try:
+        return acceptor_case(*args[:3], scripted=args[3])
+    except (OSError, InfraError) as e:
+        return {"infra": repr(e)}
+
+
+def run_acceptor13(ctx):
+    """the limit on not-yet-authenticated connections over histories: clients arrive, complete and leave around limits 1, 2 and 3; the
+    daemon against Model/Bus/Accept.lean and against the property (never more than the limit served; nobody waits while there is room,
+    i.e. capacity freed by a Hello or a departure becomes usable again)"""
+    from concurrent.futures import ProcessPoolExecutor
+    from .c10 import judge_acceptor
+    n = 6 if ctx.quick() else 90
+    jobs = [(1, 0, L, acceptor_script(L)) for L in (1, 2, 3)]
+    jobs += [(ctx.seed * 1000003 + 877 * j, 24 if ctx.quick() else 60, 1 + j % 3, None) for j in range(n)]
+    with ProcessPoolExecutor(9) as ex:
+        res = list(ex.map(_acc13_job, jobs))
+    good = [r for r in res if "infra" not in r]
+    if len(good) < len(res) * 0.8:
+        raise InfraError("acceptor harness failed: %s" % [r for r in res if "infra" in r][:2])
+    ok = judge_acceptor(ctx, good)
+    ctx.oblige("correspondence K:acceptor (%d histories of clients arriving, completing and leaving around max_incomplete_connections 1..3, "
+               "3 of them scripted: a slot freed by Hello / by a departure is usable again)" % len(good), "correspondence", ok)
+    ctx.coverage.setdefault("distribution", {})["acceptor"] = {"histories": len(good), "limits": sorted(set(r["max"] for r in good)),
+                                                                 "steps": sum(len(r["ops"]) for r in good)}
+    ctx.coverage["evaluations"] = ctx.coverage.get("evaluations", 0) + sum(len(r["ops"]) for r in good)
+
+
 def run(ctx):
     check.lean_obligations(ctx, MODULE, THEOREMS)
     n = 40 if ctx.quick() else 800
@@ -212,11 +249,15 @@ def run(ctx):
             ("message-size", {"maxmsg": 1024}, {"max_conns": 4, "big": (1024, 0.35)}, busdiff.SESSION, 15)]:
         buscheck.run_histories(ctx, n, L, make_oracle(lim), gen_kw=kw, policy=pol, limits=lim, seed_salt=salt, label=label)
     run_burst(ctx)
+    run_acceptor13(ctx)
 
 
 def replay(path):
     import json
     rp = json.load(open(path))["replay"]
+    if rp.get("kind") == "acceptor":
+        from .c10 import replay_acceptor
+        return replay_acceptor(rp)
     if rp.get("kind") == "burst":
         r = burst_case(*rp["case"])
         print("replay C13: %s" % r)
